@@ -257,6 +257,14 @@ def ext_isinstance(eng, selfv, args, kwargs):
     return VBool(f(v.term))
 
 
+def ext_any_getitem(eng, obj, args, kwargs):
+    eng.used_assumption('indexing a user-supplied table is a pure function of (table, index)')
+    k = args[0]
+    kt = k.term if hasattr(k, 'term') and k.term.sort() == I else eng.coerce(k, ty.ANY)
+    fn = z3.Function('item_of', I, I, I)
+    return VRef(fn(obj.term, kt), ty.ANY)
+
+
 def ext_any_call(eng, f, args, kwargs):
     eng.used_assumption('user-supplied callables (generators, score / agent functions) are pure functions of their arguments')
     terms = []
@@ -282,6 +290,7 @@ EXTERNALS = {
     'numpy.copy': ext_np_copy,
     'isinstance': ext_isinstance,
     'any.__call__': ext_any_call,
+    'any.__getitem__': ext_any_getitem,
     'Random.choice': ext_random_choice,
     'Random.shuffle': ext_random_shuffle,
     'Logger.info': ext_logger_noop,
